@@ -1130,7 +1130,7 @@ def fsm_pre(f):
     return fsm_inv(f) and all(o in f.instance.sync_alerts for o in SYNC_OPTIONS)
 
 
-@contract('statemachine:FiniteStateMachine.next', props=['C02', 'C08'])
+@contract('statemachine:FiniteStateMachine.next', props=['C02', 'C08', 'C10', 'C06'])
 class FsmNext:
     """the periodic / event-driven evaluation: whatever `instance.next()` proposes goes through set_state (C02), and it
     is always proposed (C08 clause 2: re-evaluation reaches next())"""
@@ -1278,28 +1278,31 @@ class OnProcessStateEvent:
     def post_effect_restart_only_on_crash_with_restart_strategy(self):
         """'on a process crash ... SHUTDOWN / RESTART are applied the same way' - and only then"""
         e = effect_at('commander_on_event', 0)[1] if count_effects('commander_on_event') == 2 else None
-        p = at(effect_pre('fsm_on_restart', 0), e) if count_effects('fsm_on_restart') == 1 else None
+        acted = count_effects('fsm_on_restart') == 1 and count_effects('commander_on_event') == 2
+        p = at(effect_pre('fsm_on_restart', 0), e) if acted else None
         return ((crashed(p) and p.rules.running_failure_strategy == RunningFailureStrategies.RESTART)
-                if count_effects('fsm_on_restart') == 1 else True)
+                if acted else count_effects('fsm_on_restart') == 0)
 
     def post_effect_shutdown_only_on_crash_with_shutdown_strategy(self):
         e = effect_at('commander_on_event', 0)[1] if count_effects('commander_on_event') == 2 else None
-        p = at(effect_pre('fsm_on_shutdown', 0), e) if count_effects('fsm_on_shutdown') == 1 else None
+        acted = count_effects('fsm_on_shutdown') == 1 and count_effects('commander_on_event') == 2
+        p = at(effect_pre('fsm_on_shutdown', 0), e) if acted else None
         return ((crashed(p) and p.rules.running_failure_strategy == RunningFailureStrategies.SHUTDOWN)
-                if count_effects('fsm_on_shutdown') == 1 else True)
+                if acted else count_effects('fsm_on_shutdown') == 0)
 
     def post_effect_failure_job_only_for_unforced_crash(self):
         """'... STOP_APPLICATION stops the whole application, RESTART_APPLICATION stops then restarts it' on a crash - and
         a forced state is not retried: a failure job is registered only for the event's process, crashed, with an
         application-level strategy and no forced state (read just before the registration)"""
         e = effect_at('commander_on_event', 0)[1] if count_effects('commander_on_event') == 2 else None
-        j = effect_at('add_default_job', 0)[0] if count_effects('add_default_job') == 1 else None
-        p = at(effect_pre('add_default_job', 0), e) if count_effects('add_default_job') == 1 else None
-        strategy = p.rules.running_failure_strategy if count_effects('add_default_job') == 1 else None
+        acted = count_effects('add_default_job') == 1 and count_effects('commander_on_event') == 2
+        j = effect_at('add_default_job', 0)[0] if acted else None
+        p = at(effect_pre('add_default_job', 0), e) if acted else None
+        strategy = p.rules.running_failure_strategy if acted else None
         return ((j is e and crashed(p) and p.forced_state is None
                  and (strategy == RunningFailureStrategies.STOP_APPLICATION
                       or strategy == RunningFailureStrategies.RESTART_APPLICATION))
-                if count_effects('add_default_job') == 1 else True)
+                if acted else count_effects('add_default_job') == 0)
 
     def post_effect_master_applies_the_strategy_of_a_crash(self, old):
         """the converse: when the Master took NO action, the event's process (final state = state at the decision: nothing
